@@ -42,6 +42,8 @@ use world::{Decision, FsImage, RunStats};
 
 const PROPERTY: &str = "C18";
 const REPO_CRATE: &str = "/repo/unic-langid-impl";
+/// wall-clock limit of one real (unsimulated) generator process
+const REAL_RUN_LIMIT_S: u64 = 60;
 
 fn harness_error(msg: &str) -> ! {
     eprintln!("HARNESS-ERROR: {}", msg);
@@ -759,20 +761,55 @@ fn real_rerun(bin_dir: &Path, cwd: &Path, gen: Gen) -> Result<String, String> {
         return Err(format!("{} not built", exe.display()));
     }
     let started = std::time::SystemTime::now();
-    let out = std::process::Command::new(&exe)
+    let mut child = std::process::Command::new(&exe)
         .current_dir(cwd)
         .env_clear()
-        .output()
+        .stdin(std::process::Stdio::null())
+        .stdout(std::process::Stdio::piped())
+        .stderr(std::process::Stdio::piped())
+        .spawn()
         .map_err(|e| format!("cannot run {}: {}", exe.display(), e))?;
-    if !out.status.success() {
-        let err = String::from_utf8_lossy(&out.stderr);
+    // a real process is not under the simulator's control: it gets a wall-clock limit (a run takes
+    // milliseconds; a generator that deadlocks for real must not hang the check)
+    let (mut so, mut se) = (child.stdout.take().unwrap(), child.stderr.take().unwrap());
+    let t_out = std::thread::spawn(move || {
+        let mut v = vec![];
+        let _ = std::io::Read::read_to_end(&mut so, &mut v);
+        v
+    });
+    let t_err = std::thread::spawn(move || {
+        let mut v = vec![];
+        let _ = std::io::Read::read_to_end(&mut se, &mut v);
+        v
+    });
+    let t0 = Instant::now();
+    let limit = std::time::Duration::from_secs(REAL_RUN_LIMIT_S);
+    let status = loop {
+        match child.try_wait() {
+            Ok(Some(st)) => break Some(st),
+            Ok(None) if t0.elapsed() > limit => {
+                let _ = child.kill();
+                let _ = child.wait();
+                break None;
+            }
+            Ok(None) => std::thread::sleep(std::time::Duration::from_millis(10)),
+            Err(e) => return Err(format!("waiting for {}: {}", exe.display(), e)),
+        }
+    };
+    let stdout = t_out.join().unwrap_or_default();
+    let stderr = t_err.join().unwrap_or_default();
+    let Some(status) = status else {
+        return Ok(format!("\u{0}REAL-FAILURE no-termination: killed after {} s of wall clock", REAL_RUN_LIMIT_S));
+    };
+    if !status.success() {
+        let err = String::from_utf8_lossy(&stderr);
         return Ok(format!(
             "\u{0}REAL-FAILURE status={:?} {}",
-            out.status.code(),
+            status.code(),
             err.lines().next().unwrap_or("")
         ));
     }
-    let text = String::from_utf8_lossy(&out.stdout).into_owned();
+    let text = String::from_utf8_lossy(&stdout).into_owned();
     if text.trim().is_empty() {
         // a generator that writes the table file itself: its product is that file
         let f = cwd.join(match gen {
@@ -794,7 +831,7 @@ fn judge_real(gen: Gen, text: &str, comp: &BTreeMap<String, Val>) -> Vec<Violati
         return vec![Violation {
             class: "R1".into(),
             table: "-".into(),
-            signature: format!("R1:{}:real-process-failed", gen.name()),
+            signature: format!("R1:{}:real-process-{}", gen.name(), if f.starts_with("no-termination") { "no-termination" } else { "failed" }),
             detail: format!("the real {} process did not run to completion: {}", gen.program(), f),
         }];
     }
@@ -1899,6 +1936,37 @@ fn cmd_trace(a: &Args) -> i32 {
         Ok(i) => Arc::new(i),
         Err(e) => harness_error(&format!("cannot load the data image: {}", e)),
     };
+    if a.opts.contains_key("sessions") {
+        // crash-restart histories: one line per session (digest of all event logs and disk states)
+        let m0 = sim::execute(gen, &image, sim::replay_mode(&[]), false, false).crash_points;
+        let mut handles = vec![];
+        for t in 0..threads {
+            let image = image.clone();
+            handles.push(std::thread::Builder::new().stack_size(64 << 20).spawn(move || {
+                let mut v = vec![];
+                let mut i = from + t;
+                while i < to {
+                    let (steps, ms) = sim::session_steps(seed, gen, &image, i, m0);
+                    let r = sim::execute_session(gen, &image, &steps, ms, false);
+                    let kinds: Vec<String> = r.runs.iter().map(|x| x.crashed.map(|k| k.name().to_string()).unwrap_or_else(|| if x.panic.is_some() { "failed".into() } else { "ok".into() })).collect();
+                    let mut od = rng::Fnv::default();
+                    od.bytes(r.last().out.as_bytes());
+                    v.push((i, r.digest(), kinds.join(","), od.0, r.last().disk_after.digest()));
+                    i += threads;
+                }
+                v
+            }).unwrap());
+        }
+        let mut all = vec![];
+        for h in handles {
+            all.extend(h.join().unwrap());
+        }
+        all.sort();
+        for (i, d, k, o, dd) in all {
+            println!("seed={} gen={} session={} runs={} log={:016x} out={:016x} disk={:016x}", seed, gen.name(), i, k, d, o, dd);
+        }
+        return 0;
+    }
     let mut handles = vec![];
     for t in 0..threads {
         let image = image.clone();
